@@ -27,6 +27,7 @@ TRUSTED = ["h5py raw reads of the table columns (model input and oracle referenc
 ASSUMPTIONS = ["table cells are compared as integers (chromosome names through their codes); float columns are checked by the oracle only"]
 RESIDUE = ["annotate with a view that does not contain the needed bins are outside the claim (the model still predicts them; compared, not judged)"]
 
+NONINT = {"weight", "arm", "label", "alias"}       # float and text columns: judged by the oracle only
 FIELD_IDS = {"chrom": 0, "start": 1, "end": 2, "extra": 3, "bin1_id": 10, "bin2_id": 11, "count": 12, "length": 20, "namecode": 21}
 
 
@@ -56,11 +57,18 @@ def build(ctx, tag, nper, rng, int_chrom=False, scale=1):
             codes = f["bins/chrom"][:].astype(np.int32)
             del f["bins/chrom"]
             f["bins"].create_dataset("chrom", data=codes)
+    # fixed-width text columns of DIFFERENT widths, the narrow one first (added the documented way: through h5py)
+    with h5py.File(path, "r+") as f:
+        f["bins"].create_dataset("arm", data=np.array([("p" if k % 2 else "q") for k in range(n)], dtype="S1"))
+        f["bins"].create_dataset("label", data=np.array([f"{names[0]}_locus_{k:03d}_{'x' * (k % 5)}" for k in range(n)], dtype="S24"))
+        f["chroms"].create_dataset("alias", data=np.array([f"NC_{k:06d}.{k + 10}" for k in range(len(names))], dtype="S14"))
     with h5py.File(path, "r") as f:
         raw = {
-            "chroms": {"name": [x.decode() for x in f["chroms/name"][:]], "length": f["chroms/length"][:].tolist()},
+            "chroms": {"name": [x.decode() for x in f["chroms/name"][:]], "length": f["chroms/length"][:].tolist(),
+                       "alias": [x.decode() for x in f["chroms/alias"][:]]},
             "bins": {"chrom": f["bins/chrom"][:].tolist(), "start": f["bins/start"][:].tolist(), "end": f["bins/end"][:].tolist(),
-                     "extra": f["bins/extra"][:].tolist(), "weight": f["bins/weight"][:].tolist()},
+                     "extra": f["bins/extra"][:].tolist(), "weight": f["bins/weight"][:].tolist(),
+                     "arm": [x.decode() for x in f["bins/arm"][:]], "label": [x.decode() for x in f["bins/label"][:]]},
             "pixels": {"bin1_id": f["pixels/bin1_id"][:].tolist(), "bin2_id": f["pixels/bin2_id"][:].tolist(), "count": f["pixels/count"][:].tolist()},
         }
     return path, raw
@@ -95,8 +103,9 @@ def run_selectors(ctx, path, raw, label):
     clr = cooler.Cooler(path)
     chromnames = raw["chroms"]["name"]
     tabs = {
-        "chroms": (clr.chroms, {"name": list(range(len(chromnames))), "length": raw["chroms"]["length"]}, ["name", "length"]),
-        "bins": (clr.bins, raw["bins"], ["chrom", "start", "end", "extra", "weight"]),
+        "chroms": (clr.chroms, {"name": list(range(len(chromnames))), "length": raw["chroms"]["length"], "alias": raw["chroms"]["alias"]},
+                   ["name", "length", "alias"]),
+        "bins": (clr.bins, raw["bins"], ["chrom", "start", "end", "arm", "extra", "label", "weight"]),     # stored order: the three fixed columns, then the rest by name
         "pixels": (lambda: clr.pixels(), raw["pixels"], ["bin1_id", "bin2_id", "count"]),
     }
     exprs, pending = [], []
@@ -104,13 +113,21 @@ def run_selectors(ctx, path, raw, label):
         n = len(next(iter(rawtab.values())))
         # every column alone as a string (-> Series), singleton and two-column lists, and all columns
         subsets = [None] + list(allf) + [[allf[0]], [allf[-1], allf[0]] if len(allf) == 2 else [allf[-1], allf[1]]]
+        if tname == "bins":
+            subsets += [["arm", "label"], ["label", "arm"], ["arm", "start", "label"]]      # text columns in both orders
+        if tname == "chroms":
+            subsets += [["name", "alias"], ["alias", "name"]]
         bounds = [None] + list(range(-n, n + 1)) + [n + 1, n + 5, 10 ** 6, -n - 1, -n - 4, -10 ** 6]   # beyond the ends: clamped like any sequence
         if n > 9:
-            bounds = [None, -n, -n + 1, -3, -1, 0, 1, 2, n // 2, n - 1, n, n + 1, n + 7, 10 ** 6, -n - 2, -10 ** 6]
-        for fs in subsets:
+            bounds = [None, -n, -3, -1, 0, 1, n // 2, n - 1, n, n + 7, 10 ** 6, -n - 2]
+        for fsi, fs in enumerate(subsets):
             sel = mk() if fs is None else mk()[fs]
             fields = allf if fs is None else ([fs] if isinstance(fs, str) else fs)
             for a, b_ in itertools.product(bounds, repeat=2):
+                # every (start, stop) pair for the whole table and the first column subsets; a fixed third of the pairs
+                # (plus all open-ended ones) for the remaining subsets
+                if fsi >= 2 and ctx.tier != "thorough" and a is not None and b_ is not None and (a + 2 * b_) % 3:
+                    continue
                 lo_, hi_, _ = slice(a, b_).indices(n)
                 case = {"cooler": label, "table": tname, "fields": fs, "start": a, "stop": b_}
                 ctx.case(case, nontrivial=hi_ > lo_, kind=f"selector:{tname}")
@@ -132,9 +149,9 @@ def run_selectors(ctx, path, raw, label):
                 if got[0] != exp[0] or {k: got[1].get(k) for k in fields} != exp[1] or list(got[1]) != fields:
                     ctx.fail(case, {"got": got, "expected": exp}, None)
                 # model comparison on the integer columns
-                ints = [f for f in fields if f != "weight"]
+                ints = [f for f in fields if f not in NONINT]
                 if ints and (a is None or b_ is None or (a + b_) % 3 == 0):
-                    tab = C.lst([C.tup(C.z(FIELD_IDS.get(f, 30 + i)), C.zl(rawtab[f])) for i, f in enumerate(allf) if f != "weight"])
+                    tab = C.lst([C.tup(C.z(FIELD_IDS.get(f, 30 + i)), C.zl(rawtab[f])) for i, f in enumerate(allf) if f not in NONINT])
                     flist = C.zl([FIELD_IDS.get(f, 30 + allf.index(f)) for f in ints])
                     exprs.append(f"selector_slice {tab} {C.z(n)} {flist} {C.opt(a, C.z)} {C.opt(b_, C.z)}")
                     pending.append((case, (got[0], [(FIELD_IDS.get(f, 30 + allf.index(f)), got[1][f]) for f in ints])))
@@ -256,11 +273,15 @@ def run_annotate(ctx, path, raw, label):
                     got, cols, outcome = None, None, type(e).__name__
                 if contains:   # the property applies
                     exp = [[p[0], binrows[p[1]], binrows[p[2]], p[3]] for p in px]
-                    bcols = ["chrom", "start", "end"] + (["extra", "weight"] if kind == "selector" else [])
+                    bcols = ["chrom", "start", "end"] + (["arm", "extra", "label", "weight"] if kind == "selector" else [])
                     expcols = [c + "1" for c in bcols] + [c + "2" for c in bcols] + ([] if replace else ["bin1_id", "bin2_id"]) + ["count"]
                     if kind == "selector" and got is not None and (out["extra1"].tolist() != [raw["bins"]["extra"][p[1]] for p in px]
                                                                   or out["extra2"].tolist() != [raw["bins"]["extra"][p[2]] for p in px]):
                         ctx.fail(case, {"detail": "extra bin column not that of the pixel's own bins"}, None)
+                    if kind == "selector" and got is not None and ([str(x) for x in out["label1"].tolist()] != [raw["bins"]["label"][p[1]] for p in px]
+                                                                  or [str(x) for x in out["label2"].tolist()] != [raw["bins"]["label"][p[2]] for p in px]
+                                                                  or [str(x) for x in out["arm2"].tolist()] != [raw["bins"]["arm"][p[2]] for p in px]):
+                        ctx.fail(case, {"detail": "text bin column (arm / label) not that of the pixel's own bins"}, None)
                     if got != exp or cols != expcols:
                         ctx.fail(case, {"outcome": outcome, "got": got, "expected": exp, "columns": cols}, None)
                     elif not replace and (out["bin1_id"].tolist() != [p[1] for p in px] or out["bin2_id"].tolist() != [p[2] for p in px]):
@@ -447,9 +468,13 @@ def run(ctx):
     if ctx.tier == "thorough":
         specs += [("c12", [5, 4, 3], False, 1), ("c5int", [1, 3, 1], True, 1), ("c7bigint", [3, 4], True, 4 * 10 ** 7)]
     for tag, nper, int_chrom, scale in specs:
+        import time as _t
         path, raw = build(ctx, tag, nper, rng, int_chrom, scale)
+        t0 = _t.time()
         run_selectors(ctx, path, raw, tag)
+        t1 = _t.time()
         run_annotate(ctx, path, raw, tag)
+        ctx.extra.setdefault("section_wall_s", {})[tag] = {"selectors": round(t1 - t0, 1), "annotate": round(_t.time() - t1, 1)}
         # integer chromosome ids must come back as names
         if int_chrom:
             import cooler
